@@ -6,7 +6,7 @@ from typing import Dict
 
 from ..core import Prop
 
-MODULES = ["c01", "c02", "c03", "c04", "c05", "c06", "c07", "c08", "c09", "c10", "c11", "c12", "c14", "c16", "c15", "c18", "c19", "c20"]
+MODULES = ["c01", "c02", "c03", "c04", "c05", "c06", "c07", "c08", "c09", "c10", "c11", "c12", "c13", "c14", "c16", "c17", "c15", "c18", "c19", "c20"]
 
 
 def registry() -> Dict[str, Prop]:
